@@ -97,8 +97,9 @@ func service(kind string, tmpl, size, fill int) any {
 		return out
 	}
 	ints := func() []int32 {
+		// Variant arrays are documented to hold at most ua.MaxVariantArrayLength (65535) elements
 		out := make([]int32, 0, len(p)/4)
-		for off := 0; off+4 <= len(p); off += 4 {
+		for off := 0; off+4 <= len(p) && len(out) < 60000; off += 4 {
 			out = append(out, int32(p[off])|int32(p[off+1])<<8|int32(p[off+2])<<16|int32(p[off+3])<<24)
 		}
 		return out
@@ -934,12 +935,13 @@ func runClient(c caseT, p *planT) (string, error) {
 			want[e.status]++
 		}
 	}
-	drain := time.After(200 * time.Millisecond)
+	// the dispatcher reports the EOF after everything else, so the EOF ends the drain
+	drain := time.After(5 * time.Second)
 	for {
 		select {
 		case err := <-errch:
 			if err == io.EOF {
-				continue
+				return "", nil
 			}
 			if s, ok := err.(ua.StatusCode); ok && want[uint32(s)] > 0 {
 				want[uint32(s)]--
